@@ -173,13 +173,18 @@ public:
         std::string link = root + "/cur";
         int link_to = 0;
         if (symlink("d0", link.c_str()) < 0) {}
+        // a directory whose files are symbolic links reaching through the flipping link (the way
+        // orchestrators publish secrets): the links never change, what they resolve to does
+        std::string kdir = root + "/k8s";
+        mkdir(kdir.c_str(), 0755);
+        for (const char *f : {"cert.pem", "key.pem", "tc.pem"}) { std::string t = std::string("../cur/") + f; if (symlink(t.c_str(), (kdir + "/" + f).c_str()) < 0) {} }
         Dec cfg(p.cfg);
         int env_dir = 0; // 0..2 = d0..d2, 3 = the link
         put_set(dirs[0], (int)cfg.ch(NSETS), 0);
         put_set(dirs[1], (int)cfg.ch(NSETS), 0);
         put_set(dirs[2], (int)cfg.ch(NSETS), 0);
-        auto env_path = [&]() { return env_dir == 3 ? link : dirs[env_dir].path; };
-        auto env_model = [&]() -> Dir & { return env_dir == 3 ? dirs[link_to] : dirs[env_dir]; };
+        auto env_path = [&]() { return env_dir == 4 ? kdir : env_dir == 3 ? link : dirs[env_dir].path; };
+        auto env_model = [&]() -> Dir & { return env_dir >= 3 ? dirs[link_to] : dirs[env_dir]; };
         setenv("XCM_TLS_CERT", env_path().c_str(), 1);
         long ctx0 = g_ctx_live;
         size_t heap0 = __sanitizer_get_current_allocated_bytes ? __sanitizer_get_current_allocated_bytes() : 0;
@@ -189,6 +194,9 @@ public:
         Outcome o = Outcome::pass();
         bool nt = false;
         int updates_since_create = 0;
+        // every history starts with one connection made entirely from the environment directory as it
+        // stands (so that anything XCM may remember from a first use is part of the history itself)
+        o = create(c, conns, env_model(), 0, 0, 0, (uint32_t)((env_model().tc % 2) << 8));
         size_t stepno = 0;
         for (auto &st : p.steps) {
             if (!o.ok) break;
@@ -217,9 +225,10 @@ public:
                 c.cls("symlink-flip");
                 updates_since_create++;
             } else if (k < 40) { // switch directory through the environment
-                env_dir = a % 4;
+                env_dir = a % 5;
                 setenv("XCM_TLS_CERT", env_path().c_str(), 1);
-                c.log("XCM_TLS_CERT=%s", env_dir == 3 ? "cur (link)" : ("d" + std::to_string(env_dir)).c_str());
+                c.log("XCM_TLS_CERT=%s", env_dir == 4 ? "k8s (file links through cur)" : env_dir == 3 ? "cur (link)" : ("d" + std::to_string(env_dir)).c_str());
+                if (env_dir == 4) c.cls("file-symlinks-through-flipping-directory-link");
                 updates_since_create++;
             } else if (k < 44) {
                 o = split_pair(c, conns, a);
@@ -247,7 +256,7 @@ public:
                 Conn &cn = conns[a % conns.size()];
                 if (cn.alive) { x_close(cn.subj); x_close(cn.obs); cn.alive = false; c.log("close a connection (set-%d)", cn.cert_set); }
             } else { // broken material in the environment directory
-                o = broken(c, env_model(), env_path(), a);
+                o = broken(c, env_model(), env_model().path, a); // the real directory behind any links
             }
         }
         // ---- everything closed: cached contexts are released
